@@ -287,6 +287,14 @@ func C16(c *core.Ctx) error {
 			}
 		}
 	}
+	// operands whose products and sums leave the int64 range: "integer arithmetic over all their arguments" is the
+	// left fold, step by step (dividing once by the product of the divisors is something else)
+	bigs := []int{4294967296, 4000000000, 9000000000000000000, 9223372036854775807}
+	for _, a := range bigs {
+		for _, b := range append([]int{2, 3, -1}, bigs...) {
+			tuples = append(tuples, []int{a, b}, []int{a, b, b}, []int{8, a, b})
+		}
+	}
 	for _, fn := range core.SortedKeys(ar) {
 		for _, t := range tuples {
 			if fn == "div" || fn == "mod" {
